@@ -39,7 +39,7 @@ func NewSlogHandler(logger Logger, config *HandlerOptions) logslog.Handler {
 		logger.SetLevel(config.Level)
 	}
 
-	return &handler4LogSlog{logger.SetColorMode(!config.NoColor).SetJSONMode(config.JSON)}
+	return &handler4LogSlog{Logger: logger.SetColorMode(!config.NoColor).SetJSONMode(config.JSON)}
 }
 
 // HandlerOptions is used for our log/slog Handler.
@@ -56,6 +56,15 @@ type HandlerOptions struct {
 
 type handler4LogSlog struct {
 	Logger
+
+	// what WithAttrs and WithGroup added, in the order of the calls
+	with []handlerWith
+}
+
+// handlerWith is one derivation step: an opened group or some fields.
+type handlerWith struct {
+	group  string
+	fields Attrs
 }
 
 func convertLevelToLogSlog(lvl Level) logslog.Level {
@@ -93,7 +102,7 @@ func (s *handler4LogSlog) Enabled(ctx context.Context, lvl logslog.Level) bool {
 func (s *handler4LogSlog) Handle(ctx context.Context, rec logslog.Record) error {
 	lvl := convertLogSlogLevel(rec.Level)
 	if wi, ok := s.Logger.(LogSlogAware); ok {
-		fields := convertLogSlogRecordAttrs(rec)
+		fields := s.nest(convertLogSlogRecordAttrs(rec))
 
 		// rec.PC would be abandoned because we want skip the extra frames
 		ei := 0
@@ -106,7 +115,7 @@ func (s *handler4LogSlog) Handle(ctx context.Context, rec logslog.Record) error 
 
 		wi.WriteThru(ctx, lvl, rec.Time, rec.PC, rec.Message, fields)
 	} else {
-		fields := convertLogSlogRecordAttrs(rec)
+		fields := s.nest(convertLogSlogRecordAttrs(rec))
 		s.LogAttrs(ctx, lvl, rec.Message, fields)
 	}
 	return nil
@@ -125,15 +134,41 @@ func (s *handler4LogSlog) WithAttrs(attrs []logslog.Attr) logslog.Handler {
 // WithGroup returns a new Handler with the given group appended to
 // the receiver's existing groups.
 func (s *handler4LogSlog) WithGroup(name string) logslog.Handler {
-	return s.withFields(Group(name))
+	if name == "" {
+		return s
+	}
+	return s.derive(handlerWith{group: name})
 }
 
 // withFields returns a cloned Handler with the given fields.
 func (s *handler4LogSlog) withFields(fields ...Attr) *handler4LogSlog {
-	cloned := &handler4LogSlog{
-		New().SetAttrs(fields...),
+	if len(fields) == 0 {
+		return s
 	}
-	return cloned
+	return s.derive(handlerWith{fields: fields})
+}
+
+// derive returns a handler on the same logger - same destination,
+// format and level - that remembers one more derivation step.
+func (s *handler4LogSlog) derive(step handlerWith) *handler4LogSlog {
+	with := make([]handlerWith, len(s.with), len(s.with)+1)
+	copy(with, s.with)
+	return &handler4LogSlog{Logger: s.Logger, with: append(with, step)}
+}
+
+// nest puts the fields of a record into the groups opened by WithGroup
+// and adds the fields given to WithAttrs at the depth they were given.
+func (s *handler4LogSlog) nest(fields Attrs) Attrs {
+	for i := len(s.with) - 1; i >= 0; i-- {
+		if step := s.with[i]; step.group != "" {
+			if len(fields) > 0 { // a group without content is omitted
+				fields = Attrs{&gkvp{step.group, fields}}
+			}
+		} else {
+			fields = append(append(make(Attrs, 0, len(step.fields)+len(fields)), step.fields...), fields...)
+		}
+	}
+	return fields
 }
 
 var _ logslog.Handler = (*handler4LogSlog)(nil)
